@@ -470,6 +470,12 @@ func stageLifecycleRules(c *core.Ctx, s *Stage, o lifecycleOpts) {
 				for j := bi + 1; j < len(p.Steps) && ok; j++ {
 					switch p.Steps[j].Kind {
 					case ir.KClose, ir.KReturn, ir.KBranch, ir.KEnter, ir.KLeave:
+					case ir.KStore:
+						// a write to a local variable of the goroutine (a flag, the state cell of a range-over-func
+						// body) is not an event anybody else can observe
+						if !cellAddr(p.Steps[j].A[0]) {
+							ok = false
+						}
 					case ir.KCall:
 						if !isWgDone(&p.Steps[j]) {
 							ok = false
